@@ -1257,16 +1257,25 @@ def rule_rechunk(prog: Program) -> List[Instance]:
                 out.append(Instance("R-GUARDSEQ", cid, OK, f"`{short(n, 50)}` is not skipped on account of the current chunking", fi.where(n)))
                 continue
             ok = False
+            largest_only = False
             for e, p in guards:
                 if isinstance(e, ast.Compare) and len(e.ops) == 1 and ((isinstance(e.ops[0], ast.NotEq) and p) or (isinstance(e.ops[0], ast.Eq) and not p)):
                     sides = [e.left, e.comparators[0]]
-                    whole = [s_ for s_ in sides if isinstance(s_, ast.Attribute) and s_.attr in ("chunksize", "chunks") and short(s_.value) == short(recv)]
+                    # `.chunksize` is only the LARGEST chunk per axis: an irregular chunking ((16, 32, 22) with 32 px
+                    # tiles, any raster cropped with xx[16:]) compares equal and is not rechunked. The comparison must be
+                    # on the full `.chunks` structure against the normalised target.
+                    whole = [s_ for s_ in sides if isinstance(s_, ast.Attribute) and s_.attr == "chunks" and short(s_.value) == short(recv)]
                     other = [s_ for s_ in sides if s_ not in whole]
-                    if len(whole) == 1 and len(other) == 1 and short(other[0], 200) == short(target, 200):
-                        ok = True
+                    if len(whole) == 1 and len(other) == 1:
+                        o = other[0]
+                        if isinstance(o, ast.Call) and call_name(o) == "normalize_chunks" and o.args and short(o.args[0], 200) == short(target, 200):
+                            ok = True
+                    if any(isinstance(s_, ast.Attribute) and s_.attr == "chunksize" for s_ in sides):
+                        largest_only = True
             out.append(Instance("R-GUARDSEQ", cid, OK if ok else BAD,
-                                f"rechunk to `{short(target, 40)}` skipped only when the whole chunk shape already equals it" if ok else
-                                f"`{short(n, 50)}` is skipped under `{short(guards[0][0], 60)}`, which is not `<whole chunk shape> != {short(target, 30)}`: a source whose chunking differs on an untested axis is not rechunked and tiles are built from partial chunks", fi.where(n)))
+                                f"rechunk to `{short(target, 40)}` skipped only when the full chunk structure already equals the normalised target" if ok else
+                                (f"`{short(n, 50)}` is skipped under `{short(guards[0][0], 60)}`: `.chunksize` is only the largest chunk per axis, so an irregular chunking whose largest chunk equals the tile (any cropped raster) is not rechunked and tile (y, x) is cut from block (y, x), which covers other pixels" if largest_only else
+                                 f"`{short(n, 50)}` is skipped under `{short(guards[0][0], 60)}`, which is not `<recv>.chunks != normalize_chunks({short(target, 30)}, <recv>.shape)`: a source whose chunking differs where the test does not look is not rechunked and tiles are built from partial chunks"), fi.where(n)))
     if n_sites == 0:
         out.append(Instance("R-GUARDSEQ", "cog._tifffile#rechunk-guard", INFO, "no rechunk call found", "", nontrivial=False))
     return out
@@ -1475,4 +1484,58 @@ def rule_tiles_within_source(prog: Program) -> List[Instance]:
             out.append(Instance("R-GUARDSEQ", f"{f.qual}#tiles-within-source:{k}", OK if ok else BAD,
                                 (f"source block `{short(c)}` is named only for layout indexes inside the source's chunk grid" if guarded else "source is padded to the layout before the tile loop") if ok else
                                 f"`{short(c)}` names a source block for every tile of the padded layout: where the padding adds whole tile rows/columns (528x528 with 16px tiles, 100000x100000 with 256px tiles) the block does not exist and compute fails with AttributeError: 'tuple' object has no attribute 'ndim'", f.where(c)))
+    return out
+
+
+def rule_cog_levels(prog: Program) -> List[Instance]:
+    """C05: (a) the per-level loop of _make_empty_cog prepares the shape/geobox of the *next* level only when
+    there is one - after the last level a side of 1 shrinks to 0 and zoom_to divides by it (every 1xN / Nx1
+    image); (b) yaxis_from_shape applies its RGB(A) shape heuristic (last axis 3 or 4 long) only where the
+    GeoBox cannot tell which axes are spatial."""
+    out: List[Instance] = []
+    f = prog.func("cog._tifffile:_make_empty_cog")
+    cond = Conditions(f.body)
+    loops = [n for n in walk_own(f.node) if isinstance(n, ast.For) and any(isinstance(c, ast.Call) and call_name(c) == "range" and any(isinstance(x, ast.BinOp) and isinstance(x.op, ast.Add) and const_num(x.right) == 1 for x in ast.walk(c)) for c in ast.walk(n.iter))]
+    n_sites = 0
+    for lp in loops:
+        idx_names = {t.id for t in ast.walk(lp.target) if isinstance(t, ast.Name)}
+        for c in ast.walk(lp):
+            if isinstance(c, ast.Call) and call_name(c) in ("shrink2", "zoom_to") and isinstance(c.func, ast.Attribute):
+                n_sites += 1
+                st = enclosing_stmt(c)
+                guarded = any(isinstance(e, ast.Compare) and names_in(e) & idx_names and ((isinstance(e.ops[0], (ast.Lt, ast.NotEq)) and p) or (isinstance(e.ops[0], (ast.GtE, ast.Eq)) and not p)) for e, p in conds_at(cond, st))
+                out.append(Instance("R-GUARDSEQ", f"{f.qual}#next-level-only:{call_name(c)}", OK if guarded else BAD,
+                                    f"`{short(c, 40)}` prepares the next level only while the loop index is below the level count" if guarded else
+                                    f"`{short(c, 40)}` also runs after the last level: a side of 1 pixel shrinks to 0 and zoom_to divides by it - every single-row/column image (and every image whose short side is <= 2**levels) raises ZeroDivisionError", f.where(c)))
+    if n_sites == 0:
+        out.append(Instance("R-GUARDSEQ", f"{f.qual}#next-level-only", INFO, "per-level shrink/zoom idiom not recognised", f.where(), nontrivial=False))
+    y = prog.func("cog._shared:yaxis_from_shape")
+    gp = y.param_names()[1] if len(y.param_names()) > 1 else "gbox"
+    condy = Conditions(y.body)
+    org = Origins(y)
+    heur = []
+    for r in walk_own(y.node):
+        if not isinstance(r, ast.Return):
+            continue
+        for e, p in conds_at(condy, r):
+            if p and isinstance(e, ast.Compare) and isinstance(e.ops[0], ast.In) and isinstance(e.comparators[0], (ast.Tuple, ast.List, ast.Set)) and {const_num(x) for x in e.comparators[0].elts} == {3, 4}:
+                heur.append(r)
+    for k, r in enumerate(heur):
+        facts = conds_at(condy, r)
+        knows = any(gp in org.deps_names(e) and not (isinstance(e, ast.Compare) and isinstance(e.ops[0], ast.In)) for e, _p in facts)
+        # ... or a test on the geobox dominates the heuristic: an earlier top-level `if` on it that leaves
+        # (returns / raises) whenever the geobox decides
+        top = enclosing_stmt(r)
+        while parent(top) is not None and parent(top) is not y.node:
+            top = parent(top)
+        for st in y.body:
+            if st is top:
+                break
+            if isinstance(st, ast.If) and gp in org.deps_names(st.test) and any(isinstance(x, (ast.Return, ast.Raise)) for x in ast.walk(st)):
+                knows = True
+        out.append(Instance("R-GUARDSEQ", f"{y.qual}#geobox-before-heuristic:{k}", OK if knows else BAD,
+                            "the RGB(A) shape heuristic is reached only after the GeoBox was consulted (absent or ambiguous)" if knows else
+                            f"`{short(r)}` under the last-axis-is-3-or-4 heuristic is reached without consulting `{gp}`: a band-first image that is 3 or 4 pixels wide is written as pixel-interleaved RGB(A)", y.where(r)))
+    if not heur:
+        out.append(Instance("R-GUARDSEQ", f"{y.qual}#geobox-before-heuristic", INFO, "no RGB(A) shape heuristic found", y.where(), nontrivial=False))
     return out
